@@ -13,6 +13,7 @@ TRUSTED = ["bufio.Writer.Write/Flush transcribed by hand from the Go 1.23 librar
            "the race between main's return and a late log.Fatalf is modelled as 'main may exit 0 as soon as completion is signalled' (Own.v may_exit_ok); the in-process runs with a slow logger are the observation of that schedule; the commands on small results are repeated"]
 
 WRITERS = ["fasta", "fastq", "json", "csv"]
+ERR_KINDS = ["closed", "eof", "shortwrite", "closedpipe", "epipe"]
 KIND = dict(fasta="KFasta", fastq="KFastq", json="KJson", csv="KCsv")
 IMPORTS = ("From Coq Require Import NArith List. Import ListNotations.\n"
            "From OBI.C18 Require Import Model.\n")
@@ -47,7 +48,8 @@ def norm(c):
                 seqlen=c.get("seqlen", 0), fail_at=c.get("fail_at", -1), close_fails=bool(c.get("close_fails")),
                 cut_at=c.get("cut_at", 0), zero_err=bool(c.get("zero_err")),
                 unowned=bool(c.get("unowned")), slow_log=bool(c.get("slow_log")), rich=bool(c.get("rich")), mode=c.get("mode", ""),
-                keep_open=bool(c.get("keep_open")), empty=bool(c.get("empty")), ops=c.get("ops") or [], path=c.get("path", ""), append=bool(c.get("append")), pre=c.get("pre", 0))
+                keep_open=bool(c.get("keep_open")), empty=bool(c.get("empty")), ops=c.get("ops") or [], path=c.get("path", ""), append=bool(c.get("append")), pre=c.get("pre", 0),
+                err_kind=c.get("err_kind", ""))
 
 
 def family(c):
@@ -500,6 +502,14 @@ def gen_cases(ctx, extra_random):
             if not c.get("unowned"):
                 cases.append(dict(c, close_fails=True, slow_log=True))
     cases += wfile_cases(ctx)
+    # the IDENTITY of the error the device returns: every non-nil error of Write / Close is a failure, also the ones a
+    # writer could be tempted to forgive (os.ErrClosed: "closed by somebody else", io.EOF, io.ErrShortWrite, EPIPE, ...)
+    for w in WRITERS:
+        for kind in ERR_KINDS:
+            for unowned in ((False, True) if w in ("json", "csv") else (False,)):
+                cases.append(dict(writer=w, sizes=[1, 1], arrival=[0, 1], fail_at=0, err_kind=kind, unowned=unowned))      # met by the final flush only
+                cases.append(dict(writer=w, sizes=[1, 1], arrival=[1, 0], fail_at=-1, close_fails=True, err_kind=kind, unowned=unowned))
+            cases.append(dict(writer=w, sizes=[2, 1], arrival=[0, 1], seqlen=2100, fail_at=5000, err_kind=kind))                # met by a chunk write
     for _ in range(extra_random):
         n = rng.randrange(0, 6)
         arr = list(range(n)); rng.shuffle(arr)
@@ -510,7 +520,8 @@ def gen_cases(ctx, extra_random):
                           fail_at=rng.choice([-1, rng.randrange(0, 200), rng.randrange(0, 20000)]) if big else rng.randrange(-1, 150),
                           close_fails=rng.random() < 0.1, compressed=rng.random() < 0.1,
                           unowned=rng.random() < 0.25, rich=rng.random() < 0.15, slow_log=rng.random() < 0.04, empty=rng.random() < 0.1,
-                          mode="chunk" if (w in ("fasta", "fastq") and rng.random() < 0.2) else "", keep_open=rng.random() < 0.5))
+                          mode="chunk" if (w in ("fasta", "fastq") and rng.random() < 0.2) else "", keep_open=rng.random() < 0.5,
+                          err_kind=rng.choice(ERR_KINDS) if rng.random() < 0.15 else ""))
     return cases
 
 
@@ -553,6 +564,14 @@ def cli_cases(ctx):
         res.append(dict(argv=["obidistribute", "-c", "sample", fa], mode="distribute"))
         res.append(dict(argv=["obidistribute", "-c", "sample", "--fastq-output", "-A", fq], mode="distribute"))
         res.append(dict(argv=["obidistribute", "-c", "sample", "--fasta-output", "-A", fq], mode="distribute"))
+    # an input without any record whose output is NOT empty (a gzip member, the brackets of a JSON array): the universal
+    # writer completes it without any batch
+    empty = os.path.join(d, "empty.fasta")
+    open(empty, "w").close()
+    for args in (["obiconvert", "-Z", empty], ["obiconvert", "--json-output", empty], ["obiconvert", "-Z", "--json-output", empty],
+                 ["obiconvert", "-Z", "--fasta-output", empty], ["obiconvert", "-Z", "--fastq-output", empty]):
+        res.append(dict(argv=args, mode="-o"))
+        res.append(dict(argv=args, mode=">"))
     # the output cannot be opened
     fa = os.path.join(d, "small.fasta")
     for args in (["obiconvert", fa], ["obiconvert", "--json-output", fa], ["obiconvert", "--fastq-output", os.path.join(d, "small.fastq")],
